@@ -394,6 +394,36 @@ class Lib:
         raise Unsupported("RandomState." + name)
 
 
+def _nested_list(d, st):
+    """[[a, b], [c, d]] -> 2-D array (concrete small shapes only)"""
+    if d.kind != "o" or not isinstance(d.n, int) or d.n == 0 or d.n > 4:
+        return None
+    rows = []
+    for i in range(d.n):
+        r = d.sel(i)
+        if not (isinstance(r, Ref) and isinstance(st.get(r), ListData)):
+            return None
+        rd = st.get(r)
+        if not isinstance(rd.n, int) or rd.kind not in ("i", "f", "b"):
+            return None
+        rows.append(rd)
+    m = rows[0].n
+    if any(r.n != m for r in rows):
+        return None
+    kind = "f" if any(r.kind == "f" for r in rows) else rows[0].kind
+
+    def sel(i, j, rows=tuple(rows)):
+        out = rows[-1].sel(j)
+        for t in range(len(rows) - 2, -1, -1):
+            out = _ite_val(i == t, rows[t].sel(j), out)
+        return out
+    return ArrData((d.n, m), sel, kind)
+
+
+def truth_const(v):
+    return v is True
+
+
 def _is_const_eq(j, n):
     if isinstance(j, int):
         return j == n
@@ -704,6 +734,9 @@ def register_builtins(L):
                     return v
                 return st.alloc(ArrData(d.shape, d.sel, _dtype_kind(kw.get("dtype"), d.kind)))
             if isinstance(d, ListData):
+                nested = _nested_list(d, st)
+                if nested is not None:
+                    return st.alloc(nested)
                 if d.kind is None and not (isinstance(d.n, int) and d.n == 0):
                     return st.alloc(ArrData((d.n,), fresh_sel("lst", "o"), "o"))
                 return st.alloc(ArrData((d.n,), d.sel, _dtype_kind(kw.get("dtype"), d.kind or "f")))
@@ -712,6 +745,22 @@ def register_builtins(L):
         if isinstance(v, Opaque):
             return Opaque("array")
         raise Unsupported("np.array of " + repr(v))
+
+    @fn("check_array", "column_or_1d", "check_X_y")
+    def _check_array(E, st, args, kw, node):
+        """sklearn.utils.check_array: validated array with equal contents; MAY be the same object (alias)"""
+        _used(E, "sklearn check_array/column_or_1d (equal contents; may return the same object; raises on invalid input)")
+        v = args[0] if args else kw.get("array", kw.get("X"))
+        if isinstance(v, Ref) and isinstance(st.get(v), ArrData):
+            if truth_const(kw.get("copy")):
+                d = st.get(v)
+                return st.alloc(ArrData(d.shape, d.sel, d.kind))
+            return v
+        if isinstance(v, Ref) and isinstance(st.get(v), ListData):
+            d = st.get(v)
+            if d.kind in ("f", "i", "b"):
+                return st.alloc(ArrData((d.n,), d.sel, d.kind))
+        return Opaque("check_array")
 
     @fn("np.zeros", "np.ones", "np.empty", "np.full", "np.zeros_like", "np.ones_like", "np.full_like", "np.empty_like")
     def _np_fill(E, st, args, kw, node):
@@ -896,4 +945,7 @@ def _dtype_kind(dt, default):
         return "b"
     if n in ("float", "np.float64"):
         return "f"
+    if n is not None and any(t in n for t in ("int8", "int16", "int32", "uint", "float16", "float32", "half", "single")):
+        # narrow machine types: 'integers are mathematical / floats are reals' no longer describes the code
+        raise Unsupported(f"narrow dtype {n}: machine arithmetic is outside the encoding")
     return default
